@@ -163,10 +163,10 @@ Proof.
   - (* * *) assert (Hz : P3.in63 (x * y)) by (apply Hfit; ceqb; reflexivity).
     exists (ux && uy). split; [apply P3.mul_exact; assumption|].
     split; [exact Hz|]. intros Hk. apply andb_true_iff in Hk. destruct Hk as [H1 H2]. apply Z.mul_nonneg_nonneg; auto.
-  - (* < *) unfold E.q_lt. rewrite P3.cmp_exact by assumption. cbn [E.bind]. apply rel_bool.
-  - (* > *) unfold E.q_gt. rewrite P3.cmp_exact by assumption. cbn [E.bind]. apply rel_bool.
-  - (* <= *) unfold E.q_le. rewrite P3.cmp_exact by assumption. cbn [E.bind]. apply rel_bool.
-  - (* >= *) unfold E.q_ge. rewrite P3.cmp_exact by assumption. cbn [E.bind]. apply rel_bool.
+  - (* < *) unfold E.q_lt. rewrite P3.cmp_exact by (assumption || apply P3.cmp_like_ltb). cbn [E.bind]. apply rel_bool.
+  - (* > *) unfold E.q_gt. rewrite P3.cmp_exact by (assumption || apply P3.cmp_like_gtb). cbn [E.bind]. apply rel_bool.
+  - (* <= *) unfold E.q_le. rewrite P3.cmp_exact by (assumption || apply P3.cmp_like_leb). cbn [E.bind]. apply rel_bool.
+  - (* >= *) unfold E.q_ge. rewrite P3.cmp_exact by (assumption || apply P3.cmp_like_geb). cbn [E.bind]. apply rel_bool.
   - (* && *) rewrite !P3.true_exact by assumption. cbn [E.bind]. rewrite !Z.gtb_ltb. apply rel_bool.
   - (* || *) rewrite !P3.true_exact by assumption. cbn [E.bind]. rewrite !Z.gtb_ltb. apply rel_bool.
 Qed.
@@ -205,7 +205,7 @@ Definition relb (o : option bool) (r : E.outcome E.qval) : Prop :=
 
 Lemma q_eq_enc : forall u x v y, P3.okv u x -> P3.okv v y ->
   E.bind (E.q_eq (P3.enc u x) (P3.enc v y)) (fun c => E.Ok (E.of_bool c)) = E.Ok (E.of_bool (x =? y)%Z).
-Proof. intros u x v y Hx Hy. unfold E.q_eq. rewrite P3.cmp_exact by assumption. reflexivity. Qed.
+Proof. intros u x v y Hx Hy. unfold E.q_eq. rewrite P3.cmp_exact by (assumption || apply P3.cmp_like_eqb). reflexivity. Qed.
 
 Lemma force_text : forall x s, jv_ok x = true ->
   rel (num_of x) (E.eq_force_number (E.SideText s (Some (vval_of x)))).
